@@ -265,6 +265,18 @@ def dist_terms_rule(ctx):
         c1 = "torch.exp(__component__(self._compute_params(context), 1))"
         # the reparameterisation, wherever it sits under reshapes / splits / transposes
         for core in _uw2(pp.ret):
+            if isinstance(core, ast.Call) and isinstance(core.func, ast.Attribute) and core.func.attr == "normal" and norm_text(core.func.value) == "torch":
+                # torch.normal(mean, std) draws from N(mean, std^2) element-wise (its differentiability is C16's)
+                a = list(core.args) + [None, None]
+                kw = {k.arg: k.value for k in core.keywords}
+                m_t, s_t = kw.get("mean", a[0]), kw.get("std", a[1])
+                if m_t is not None and s_t is not None:
+                    m_t, s_t = norm_text(m_t), norm_text(s_t)
+                    if c0 in m_t and c1 not in m_t and c1 in s_t and "randn" not in m_t + s_t:
+                        oksmp = True
+                    elif oksmp is None:
+                        oksmp = False
+                continue
             if not (isinstance(core, ast.BinOp) and isinstance(core.op, ast.Add)):
                 continue
             sides = [norm_text(core.left), norm_text(core.right)]
@@ -393,8 +405,22 @@ def dist_terms_rule(ctx):
                                 visit(q, frozenset(), seen)
         return roles, stdforms
 
-    r1, f1 = roles_of(lp)
-    r2, f2 = roles_of(smp)
+    def roles_with_callees(fn):
+        """the method, and -- when it reads no output slot itself -- the methods of the class it calls on self
+        (sample() delegating to a fused sample_and_log_prob)"""
+        r, f = roles_of(fn)
+        if r:
+            return r, f
+        for c in ast.walk(fn.node):
+            if isinstance(c, ast.Call) and isinstance(c.func, ast.Attribute) and isinstance(c.func.value, ast.Name) and c.func.value.id == "self" and c.func.attr in mog.methods and mog.methods[c.func.attr] is not fn:
+                rr, ff = roles_of(mog.methods[c.func.attr])
+                for k, v in rr.items():
+                    r.setdefault(k, set()).update(v)
+                f |= ff
+        return r, f
+
+    r1, f1 = roles_with_callees(lp)
+    r2, f2 = roles_with_callees(smp)
 
     def single(r):
         return {k: next(iter(v)) for k, v in r.items() if len(v) == 1} if all(len(v) == 1 for v in r.values()) else None
